@@ -43,7 +43,7 @@ SPEC = {
         # model fidelity: the fuel of the modelled loops never cuts them short
         'vose_current_loop_exits', 'vose_fixed_loop_exits', 'vose_current_sweep_fuel',
         # the repaired constructor: full-strength correctness for every valid distribution of every length
-        'vose_correct', 'vose_correct_slack', 'vose_correct_valid', 'vose_mass_error_sign_and_sum', 'vose_correct_tableOk', 'vose_fixed_lengths', 'vose_fixed_alias_in_range', 'vose_correct_isProb_in_range',
+        'vose_correct', 'vose_correct_slack', 'vose_correct_valid', 'vose_correct_any_avg', 'vose_correct_double_avg', 'vose_mass_error_sign_and_sum', 'vose_correct_tableOk', 'vose_fixed_lengths', 'vose_fixed_alias_in_range', 'vose_correct_isProb_in_range',
         # the property stated literally: SelectsWithProb f j q := the draws in [0,1) mapped to j are a finite disjoint union of half-open
         # intervals of total length q; q is unique (selects_unique)
         'dense_cert', 'dense_selects_exact', 'dense_selects_valid', 'dense_selects_out_of_range', 'alias_cert', 'vose_selects',
@@ -69,6 +69,6 @@ SPEC = {
     'assumptions': ['libstdc++ std::uniform_real_distribution<double>(a,b) draws one canonical u in [0,1) per call (2 engine words) and returns a+u*(b-a); the harness measures the value it returns for the scripted words, the driver checks the word count',
                     'std::sort is modelled by List.mergeSort (result depends only on the multiset: randomProbability_perm_invariant)',
                     'VoseAliasSampler table is private: reconstructed behaviourally (switch point of each column found by bisection), cross-checked by vsample lines',
-                    'avg = 1.0/n is passed to the model as the exact double the code computes; vose theorems instantiate avg = 1/n',
+                    'avg = 1.0/n is passed to the model as the exact double the code computes; vose_correct instantiates avg = 1/n, vose_correct_any_avg / vose_correct_double_avg bound the effect of avg = fl(1/n)',
                     'Eigen compressed row-major storage: InnerIterator of a row is an index into flat arrays (model of the walk-off)'],
 }
